@@ -4,6 +4,7 @@ import SaramaVerif.Model.Producer
 import SaramaVerif.Model.IdemBroker
 import SaramaVerif.Model.PartProd
 import SaramaVerif.Model.BrokerProd
+import SaramaVerif.Model.BrokerProdIdem
 /-
   Replays hook-event traces of the real async producer through Model.Producer.step (trace validation).
   Lines:  reset <retryMax> <icepts> <idem>   |   ev <kind> <id> <a> <b>   |   end <closedSeen>
@@ -82,7 +83,7 @@ def ppCheck (d : List (Int × Model.PartProd.St × List Model.PartProd.Action)) 
       that was closed while an empty produce set was still at its bridge reports the answer late) is ignored.
   Idempotent scenarios are not replayed (retryBatch hands sets to other workers' bridges). -/
 namespace BPW
-open Model.BrokerProd
+open Model.BrokerProd Model.BrokerProdIdem
 
 inductive Pend
   | idle
@@ -90,6 +91,7 @@ inductive Pend
   | recvTok (t : Tok)             -- token taken in; `overflow` is read off the reaction
   | respList (ids : List Int)     -- bp.resp events of the answered set are being listed
   | resp                          -- bp.resp.end seen; verdicts and reactions are being collected
+  | handoverW                     -- idempotent: hand-over inside waitForSpace; `again` is read off the reaction
 
 structure BW where
   key : Int                       -- worker tag: broker id * 4096 + serial
@@ -98,10 +100,14 @@ structure BW where
   pend : Pend := .idle
   obs : List Action := []         -- observed since the pending input, newest first
   verd : List (Int × Int) := []   -- bp.verdict (partition, code), newest first
+  reg : List (List Tok) := []     -- idempotent: batches given to retryBatch during the pending response
 
 structure World where
   ws : List BW := []
-  holder : List (Int × Int) := []     -- token id → tag of the worker holding it
+  holder : List (Int × Int) := []     -- token id → tag of the worker holding it (-1: a retryBatch goroutine)
+  idem : Bool := false
+  batches : List (List Tok) := []     -- idempotent: batches in the hands of retryBatch goroutines
+  bev : List (Int × Option Nat) := [] -- their events, oldest first: (id, new retries) = retrybatch, (id, none) = ret.err
 
 def assocSet {α : Type} (l : List (Int × α)) (k : Int) (v : α) : List (Int × α) := (k, v) :: l.filter (fun x => x.1 != k)
 def assocDel {α : Type} (l : List (Int × α)) (k : Int) : List (Int × α) := l.filter (fun x => x.1 != k)
@@ -165,8 +171,26 @@ def respOf (w : BW) (sent : List Tok) (obs : List Action) : Except String Resp :
       .ok (.verdicts (fun p => match verd.lookup p with | some c => classOf c | none => .ok) (verd.map (·.1))
             (obs.filterMap fun | .drop p => some p | _ => none))
 
+/-- the model: `Model.BrokerProd.step` for the plain producer, `Model.BrokerProdIdem.stepI` for the idempotent one -/
+def stepU (idem : Bool) (max : Nat) (s : Model.BrokerProd.St) (i : InI) (obs : List Action) :
+    Model.BrokerProd.St × List Action × List (List Tok) :=
+  if idem then
+    -- `bp.buffer.add` failed: the reaction ends with bp.add, ret.err of the same message
+    let addErr := match obs.reverse with
+      | .fail i _ :: .add j _ :: _ => i == j
+      | _ => false
+    stepIE max s i addErr
+  else match i with
+    | .recv t o => ((Model.BrokerProd.step max s (.recv t o)).1, (Model.BrokerProd.step max s (.recv t o)).2, [])
+    | .handover _ => ((Model.BrokerProd.step max s .handover).1, (Model.BrokerProd.step max s .handover).2, [])
+    | .resp r st => ((Model.BrokerProd.step max s (.resp r st)).1, (Model.BrokerProd.step max s (.resp r st)).2, [])
+    | .inject _ => (s, [.disabled], [])
+
+def sameBatches (a b : List (List Tok)) : Bool :=
+  a.length == b.length && a.all (fun x => b.contains x)
+
 /-- feed the pending input of a worker to the model and compare (final: the trace ended, a prefix suffices) -/
-def settle (max : Nat) (final : Bool) (w : BW) : Except String BW :=
+def settle (idem : Bool) (max : Nat) (final : Bool) (w : BW) : Except String BW :=
   let obs := w.obs.reverse
   match w.pend with
   | .idle => if obs.isEmpty then .ok w else .error s!"{name w}: unexpected {showActs obs}"
@@ -174,8 +198,8 @@ def settle (max : Nat) (final : Bool) (w : BW) : Except String BW :=
   | .recvTok t =>
     if final && obs.isEmpty then .ok { w with pend := .idle }
     else
-      let r := Model.BrokerProd.step max w.st (.recv t obs.isEmpty)
-      cmp final w r.1 (norm r.2) obs
+      let r := stepU idem max w.st (.recv t obs.isEmpty) obs
+      cmp final w r.1 (norm r.2.1) obs
   | .respList _ => if final then .ok { w with pend := .idle, obs := [] } else .error s!"{name w}: response listing not terminated"
   | .resp =>
     match w.st.sets with
@@ -187,8 +211,15 @@ def settle (max : Nat) (final : Bool) (w : BW) : Except String BW :=
           let still := match w.st.wait with
             | some t => !(obs.contains (.add t.id t.part))
             | none => false
-          let x := Model.BrokerProd.step max w.st (.resp r still)
-          cmp final w x.1 (norm x.2) obs
+          let x := stepU idem max w.st (.resp r still) obs
+          if !final && !sameBatches x.2.2 w.reg.reverse then
+            .error s!"{name w}: the model gives {showInts ((x.2.2.flatten).map (·.id))} to retryBatch, the verdicts said {showInts ((w.reg.reverse.flatten).map (·.id))}"
+          else (cmp final w x.1 (norm x.2.1) obs).map (fun w' => { w' with reg := [] })
+  | .handoverW =>
+    if final && obs.isEmpty then .ok { w with pend := .idle }
+    else
+      let r := stepU idem max w.st (.handover obs.isEmpty) obs
+      cmp final w r.1 (norm r.2.1) obs
 
 /-- push an observed action to a worker -/
 def see (wd : World) (w : BW) (act : Action) : World := putW wd { w with obs := act :: w.obs }
@@ -208,6 +239,37 @@ def tagged (wd : World) (tag id : Int) (act : Action) : Except String World :=
     if (wd.holder.lookup id) != some tag then .error s!"{name w}: {showAct act} for token {id}, which it does not hold"
     else .ok (see wd w act)
 
+def bevOf (wd : World) (b : List Tok) : List BatchAct :=
+  (wd.bev.filter (fun e => b.any (fun t => t.id == e.1))).map fun e =>
+    match e.2 with
+    | some r => BatchAct.bump e.1 r
+    | none => BatchAct.fail e.1
+
+/-- the listed set is not the worker's own but one that a retryBatch goroutine put into its bridge: the goroutine
+    must have done exactly `retryBatch` (all counts bumped, leader found), and the worker's model takes `inject` -/
+def foreign (max : Nat) (wd : World) (w : BW) (ids : List Int) : Except String (World × BW) :=
+  match ids with
+  | [] => .ok (wd, w)
+  | i :: _ =>
+    if wd.holder.lookup i != some (-1) then .ok (wd, w)
+    else match wd.batches.find? (fun b => b.any (fun t => t.id == i)) with
+      | none => .error s!"{name w}: response for {showInts ids}, which no retryBatch goroutine holds"
+      | some b =>
+        let exp := retryBatch max b true
+        if exp != bevOf wd b ++ [BatchAct.offer (b.map bumped)] then
+          .error s!"{name w}: retryBatch of {showInts (b.map (·.id))} did not bump every message exactly once before re-sending"
+        else if ids != b.map (·.id) then
+          .error s!"{name w}: response for {showInts ids}, but retryBatch re-sent {showInts (b.map (·.id))}"
+        else
+          let r := stepI max w.st (.inject (b.map bumped))
+          if r.2.1.contains .disabled then .error s!"{name w}: a re-sent batch at the bridge while another set is in flight"
+          else
+            let w' := { w with st := r.1 }
+            let wd' := putW wd w'
+            .ok ({ wd' with batches := wd'.batches.filter (fun x => x != b),
+                            bev := wd'.bev.filter (fun e => !b.any (fun t => t.id == e.1)),
+                            holder := b.foldl (fun h t => assocSet h t.id w.key) wd'.holder }, w')
+
 /-- one hook event -/
 def wstep (max : Nat) (wd : World) (kind : String) (id a b p : Int) : Except String World :=
   match kind with
@@ -215,10 +277,11 @@ def wstep (max : Nat) (wd : World) (kind : String) (id a b p : Int) : Except Str
     let fl := a.toNat % 8
     let k : Kind := if fl % 2 == 1 then .syn else if (fl / 2) % 2 == 1 then .fin else .data
     let tok : Tok := { id := id, part := p, retries := a.toNat / 8, kind := k }
-    let (w, wd) := match getW wd b with
+    let nw : BW := { key := b, broker := b / 4096 }
+    let (w, wd) : BW × World := match getW wd b with
       | some w => (w, wd)
-      | none => (({ key := b, broker := b / 4096 } : BW), { wd with ws := wd.ws ++ [{ key := b, broker := b / 4096 }] })
-    match settle max false w with
+      | none => (nw, { wd with ws := wd.ws ++ [nw] })
+    match settle wd.idem max false w with
     | .error m => .error m
     | .ok w' => .ok { putW wd { w' with pend := Pend.recvTok tok } with holder := assocSet wd.holder id b }
   | "wg.done.syn" =>
@@ -228,29 +291,41 @@ def wstep (max : Nat) (wd : World) (kind : String) (id a b p : Int) : Except Str
   | "bp.bounce" => tagged wd b id (.refuse id)
   | "bp.add" => tagged wd b id (.add id p)
   | "retry" => leave wd id (.requeue id p a.toNat ((b.toNat / 2) % 2 == 1))
-  | "ret.err" => leave wd id (.fail id p)
+  | "retrybatch" => .ok { wd with bev := wd.bev ++ [(id, some a.toNat)] }
+  | "ret.err" =>
+    -- idempotent: a message that was given to a retryBatch goroutine is failed by that goroutine, not by the worker
+    if wd.holder.lookup id == some (-1) then
+      .ok { wd with bev := wd.bev ++ [(id, none)], holder := assocDel wd.holder id }
+    else leave wd id (.fail id p)
   | "ret.succ" => leave wd id (.succ id p)
   | "bp.handover" =>
     match getW wd a with
     | none => .ok wd
     | some w =>
-      match settle max false w with
+      match settle wd.idem max false w with
       | .error m => .error m
       | .ok w' =>
         if (b == 2) != w'.st.wait.isSome then .error s!"{name w}: bp.handover site {b} does not fit waitForSpace state"
+        else if wd.idem && b == 2 then
+          if !w'.st.sets.isEmpty then .error s!"{name w}: handover while a set is in flight"
+          else .ok (putW wd { w' with pend := .handoverW })
         else
           let r := Model.BrokerProd.step max w'.st .handover
           if r.2.contains .disabled then .error s!"{name w}: handover while a set is in flight, or of an empty buffer with a fresh `output`"
           else .ok (putW wd { w' with st := r.1, pend := .eager (norm r.2) })
   | "bp.resp" =>
+    -- (a set sent by a retryBatch goroutine can be the first thing seen of the worker it made getBrokerProducer create)
+    let wd : World := if (getW wd a).isNone && wd.holder.lookup id == some (-1)
+      then { wd with ws := wd.ws ++ [({ key := a, broker := a / 4096 } : BW)] } else wd
     match getW wd a with
     | none => .ok wd
     | some w =>
-      if (wd.holder.lookup id) != some a then .error s!"{name w}: bp.resp lists token {id}, which it does not hold"
+      if (wd.holder.lookup id) != some a && (wd.holder.lookup id) != some (-1) then
+        .error s!"{name w}: bp.resp lists token {id}, which it does not hold"
       else match w.pend with
         | .respList ids => .ok (putW wd { w with pend := .respList (ids ++ [id]) })
         | _ =>
-          match settle max false w with
+          match settle wd.idem max false w with
           | .error m => .error m
           | .ok w' => .ok (putW wd { w' with pend := .respList [id] })
   | "bp.resp.end" =>
@@ -260,6 +335,9 @@ def wstep (max : Nat) (wd : World) (kind : String) (id a b p : Int) : Except Str
     | some w =>
       match w.pend with
       | .respList ids =>
+        match foreign max wd w ids with
+        | .error m => .error m
+        | .ok (wd, w) =>
         match w.st.sets with
         | sent :: _ =>
           let ord := ids.filterMap (fun i => (sent.find? (fun t => t.id == i)).map (·.part))
@@ -267,7 +345,7 @@ def wstep (max : Nat) (wd : World) (kind : String) (id a b p : Int) : Except Str
           else .error s!"{name w}: response for {showInts ids}, but the set in flight is {showInts (sent.map (·.id))}"
         | [] => .error s!"{name w}: response without a set in flight"
       | _ =>
-        match settle max false w with
+        match settle wd.idem max false w with
         | .error m => .error m
         | .ok w' => match w'.st.sets with
           | [] :: _ => .ok (putW wd { w' with pend := .resp, obs := [], verd := [] })
@@ -281,6 +359,12 @@ def wstep (max : Nat) (wd : World) (kind : String) (id a b p : Int) : Except Str
       | .resp, sent :: _ =>
         if !(partsOf sent).contains p then .error s!"{name w}: verdict for partition {p}, which is not in the answered set"
         else if (w.verd.lookup p).isSome then .error s!"{name w}: second verdict for partition {p}"
+        else if wd.idem && max > 0 && classOf a == Verdict.retriable then
+          -- second pass of handleSuccess will start `go retryBatch` with this partition's part of the set
+          let b := onPart p sent
+          let wd1 := putW wd { w with verd := (p, a) :: w.verd, reg := b :: w.reg }
+          .ok { wd1 with batches := wd1.batches ++ [b],
+                         holder := b.foldl (fun h t => assocSet h t.id (-1)) wd1.holder }
         else .ok (putW wd { w with verd := (p, a) :: w.verd })
       | _, _ => .error s!"{name w}: bp.verdict outside response handling"
   | "bp.drop" =>
@@ -303,9 +387,14 @@ def bpCheck (max : Nat) (wd : World) (kind : String) (id a b p : Int) : Except S
 
 /-- end of the trace: every pending input must be consistent with a prefix of the model's reaction -/
 def bpEnd (max : Nat) (wd : World) : Except String Unit :=
-  match wd.ws.filterMap (fun w => match settle max true w with | .error m => some m | .ok _ => none) with
+  match wd.ws.filterMap (fun w => match settle wd.idem max true w with | .error m => some m | .ok _ => none) with
   | m :: _ => .error m
-  | [] => .ok ()
+  | [] =>
+    -- batches that were not re-sent: what their goroutine did must be the beginning of a failing (budget spent or no
+    -- leader) or of a succeeding retryBatch
+    match wd.batches.find? (fun b => !((bevOf wd b).isPrefixOf (retryBatch max b false) || (bevOf wd b).isPrefixOf (retryBatch max b true))) with
+    | some b => .error s!"retryBatch of {showInts (b.map (·.id))}: its retrybatch / ret.err events fit neither a failed nor a re-sent batch"
+    | none => .ok ()
 
 end BPW
 
@@ -318,6 +407,8 @@ structure DS where
   bpOn : Bool := false             -- broker workers are replayed (not idempotent)
   bws : BPW.World := {}            -- the broker workers of the scenario
   sy : Model.SyncShim.St := {}     -- SyncProducer shim (expectation slots) of the scenario
+  tmLog : List (Int × Int × Int) := []   -- transaction-manager ops: stamps given (topic·100000+partition, epoch, sequence)
+  tmEpoch : Int := 0
 
 def showVerdict : Model.IdemBroker.Verdict → String
   | .appended b => s!"app {b}"
@@ -353,7 +444,7 @@ def step (d : DS) (t : List String) : DS × String :=
   match t with
   | ["reset", rm, ic, idem] =>
     ({ st := init { retryMax := nat! rm, icepts := nat! ic, idem := idem = "1" }, failed := false, brokers := [], pps := [],
-       rmax := nat! rm, bpOn := idem != "1", bws := {}, sy := {} }, "ok")
+       rmax := nat! rm, bpOn := true, bws := { idem := idem == "1" }, sy := {} }, "ok")
   | ["bb", p, epoch, firstSeq, payloads] =>
     -- one batch arriving at the leader of partition p (simulated cluster ↔ Model.IdemBroker.arrive)
     let st := getB d.brokers (int! p)
@@ -383,6 +474,12 @@ def step (d : DS) (t : List String) : DS × String :=
           else match BPW.bpCheck d.rmax d.bws kind (int! id) (int! a) (int! b) (int! p) with
             | .ok bws' => ({ d with st := s', pps := pps', bws := bws' }, "ok")
             | .error m => ({ d with failed := true }, s!"reject: {m}")
+  | ["tm", "reset"] => ({ d with tmLog := [], tmEpoch := 0 }, "ok")
+  | ["tm", "bump"] => ({ d with tmEpoch := d.tmEpoch + 1 }, "ok")
+  | ["tm", "seq", t, p] =>
+    -- the counter value the model's stamp rule prescribes (Model.Producer.stampCount, the function `stamps_dense` is about)
+    let q : Int := Model.Producer.stampCount d.tmLog (int! t * 100000 + int! p) d.tmEpoch
+    ({ d with tmLog := (int! t * 100000 + int! p, d.tmEpoch, q) :: d.tmLog }, s!"{q} {d.tmEpoch}")
   | ["sy", "submit", id] =>
     match Model.SyncShim.step d.sy (.submit (int! id)) with
     | .ok s' => ({ d with sy := s' }, "ok")
